@@ -5,7 +5,8 @@ ROOT = os.path.dirname(os.path.abspath(__file__))
 BASE = "cd /repo && GOFLAGS=-mod=mod GOPROXY=off go test -vet=off -count=1 -timeout 25m ./..."
 NOTE = ("Trusted: Coq 8.16.1 kernel and vm_compute (no native_compute); no axioms (every Print Assumptions is 'Closed under the global "
         "context'); the go2v translator; the Go harness/oracle; Go toolchain and third-party libraries. See DESIGN.md section 7.")
-SOURCE_COMMITS = ["05f9ccb verif hooks: export template rendering behind the 'verif' build tag"]
+SOURCE_COMMITS = ["05f9ccb verif hooks: export template rendering behind the 'verif' build tag",
+                  "10a19d1 verif hooks: export the two Destination checks behind the 'verif' build tag"]
 CLAIMED = {
  "C14": dict(ref="5 C14", technique="Rocq/Coq proof of the bounded read loop + allocation measurement on the implementation (partial by nature)",
    text="C14_bounded / _independent_of_ratio: for every stream of chunks the LimitReader/ReadAll loop materialises at most cap+1 bytes and rejects exactly the streams longer than cap; C14_structure ties cap and "
@@ -106,8 +107,8 @@ EXTRA = {
  "C07": "Added: C07_canonical_document_decodes (the decode model -- Unmarshal over the generated schema + projection, checked against the handler's decoder on every generated request -- is live on the canonical serialisation for all values).",
  "C08": "Added: C08_single_write, C08_terminal, C08_prechecks (delivery, terminal switch and pre-chain checks derived from the statement facts of sendBackResponse / ssoHandleFunc).",
  "C10": "Added: C10_response_key / C10_metadata_key / C10_key_guards_order (which answers of the key getters are accepted, from the guard statements of getResponseCert / getMetadataCert); the correspondence derives cert_ok / mkey_ok from the injected answer shape.",
- "C11": "Added: C11_metadata_document (the metadata document from the translated builders of metadata.go / identityprovider.go: entityID, flag, key descriptors, locations, for every configuration); every metadata document of the configuration sweep is rebuilt from source + schema and compared with the served one (KMetaDoc); C11_unsigned_accepted_otherwise (the converse of the flag clause); C11_schema (metadata struct tags vs the SAML metadata schema).",
- "C12": "Added: the decode oracle as a function of the request body (aquery_of_doc: model of Unmarshal + projection), checked against DecodeAttributeQuery on every case; C12_built_response (the answer document's fields from the builder source), C12_schema.",
+ "C11": "Added: C11_metadata_document (the metadata document from the translated builders of metadata.go / identityprovider.go: entityID, flag, key descriptors, locations, for every configuration); every metadata document of the configuration sweep is rebuilt from source + schema and compared with the served one (KMetaDoc); C11_unsigned_accepted_otherwise (the converse of the flag clause); C11_schema (metadata struct tags vs the SAML metadata schema). Advertised = checked: C11_destination_checks_from_source (the two Destination check functions, translated by go2v, for every descriptor and request), C11_checked_value_from_source (the checks receive the role descriptor p.GetMetadata returned), C11_checked_is_advertised (a request passes exactly when it names no Destination or the advertised location), C11_accepted_destination; the Go functions run against the generated Gallina through verif hooks (KDest) and, per configuration, requests addressed to the advertised / other locations are accepted / refused accordingly.",
+ "C12": "Added: the decode oracle as a function of the request body (aquery_of_doc: model of Unmarshal + projection), checked against DecodeAttributeQuery on every case; C12_built_response (the answer document's fields from the builder source), C12_schema, C12_answered_destination (an answered query named no Destination or the advertised AttributeService location); requested attributes with empty / absent Name (which designate nothing) are part of the generated queries.",
  "C13": "Added: the decode oracle as a function of the request document (lreq_of_doc), checked against DecodeLogoutRequest on every case; C13_built_response, C13_delivery_from_source, C13_codec, C13_schema.",
  "C14": "Added: C14_oversized_not_accepted / C14_oversized_decode_fails (an oversized DEFLATE payload is never accepted by the SSO handler, with decode = InflateAndDecode + parser).",
  "C15": "Added: C15_sso_program / C15_concurrent_sso (the SSO handler as a program over atomic storage operations; N concurrent SSO requests under every schedule are answered as alone on the initial storage and never share a stored request), C15_id_legal (NewID() values are legal xs:ID), C15_callbacks_among_sso (callbacks for requests that existed before the run are isolated among concurrently creating SSO threads).",
